@@ -1,13 +1,33 @@
 import XeofsModel.Mat
+import XeofsModel.Eof
 import Mathlib.LinearAlgebra.Matrix.ConjTranspose
 import Mathlib.Algebra.BigOperators.Fin
 import Mathlib.Analysis.RCLike.Basic
+import Mathlib.Analysis.SpecialFunctions.Log.Basic
+import Mathlib.Analysis.SpecialFunctions.Sqrt
+/-! Bridge between the executable, Mathlib-free model (`XM.Mat`, classes `Num`, `XM.Entry`) and Mathlib:
+the proofs instantiate the SAME polymorphic definitions the driver runs on `Float` at `ρ = ℝ`, `α = 𝕜`. -/
 open XM Matrix
 
+noncomputable instance : Num ℝ where
+  ofNat := fun n => (n : ℝ)
+  sqrt := Real.sqrt
+  log := Real.log
+  abs := fun x => |x|
+
 variable {𝕜 : Type} [RCLike 𝕜]
-instance : XM.Conj 𝕜 := ⟨star⟩
+noncomputable instance : XM.Entry ℝ 𝕜 := { conj := star, ofReal := fun x => (x : 𝕜) }
+
+@[simp] theorem Num.ofNat_real (n : ℕ) : (Num.ofNat n : ℝ) = (n : ℝ) := rfl
+@[simp] theorem Entry.ofReal_eq (x : ℝ) : (Entry.ofReal x : 𝕜) = (x : 𝕜) := rfl
+@[simp] theorem Conj.conj_eq (x : 𝕜) : (Conj.conj x : 𝕜) = star x := rfl
 
 def XM.Mat.toMatrix {α} {n m} (A : Mat n m α) : Matrix (Fin n) (Fin m) α := fun i j => A.get i j
+
+@[simp] theorem toMatrix_apply {α} {n m} (A : Mat n m α) (i : Fin n) (j : Fin m) : A.toMatrix i j = A.get i j := rfl
+
+@[simp] theorem toMatrix_ofFn {α} {n m} (f : Fin n → Fin m → α) : (Mat.ofFn f).toMatrix = Matrix.of f := by
+  ext i j; simp [Mat.toMatrix]
 
 theorem sumFin_eq {α} [AddCommMonoid α] (n : Nat) (f : Fin n → α) : Mat.sumFin n f = ∑ i, f i := by
   unfold Mat.sumFin
@@ -20,15 +40,26 @@ theorem sumFin_eq {α} [AddCommMonoid α] (n : Nat) (f : Fin n → α) : Mat.sum
   ext i j; simp [Mat.toMatrix, Mat.mul, sumFin_eq, Matrix.mul_apply]
 
 @[simp] theorem toMatrix_conjT {n m} (A : Mat n m 𝕜) : (Mat.conjT A).toMatrix = (A.toMatrix)ᴴ := by
-  ext i j; simp [Mat.toMatrix, Mat.conjT, Conj.conj, conjTranspose_apply]
+  ext i j; simp [Mat.toMatrix, Mat.conjT, conjTranspose_apply]
 
 @[simp] theorem toMatrix_scaleCols {n m} (A : Mat n m 𝕜) (s : Fin m → 𝕜) :
     (Mat.scaleCols A s).toMatrix = A.toMatrix * diagonal s := by
   ext i j; simp [Mat.toMatrix, Mat.scaleCols, Matrix.mul_diagonal]
 
-/-- transform of the training matrix reproduces the scores, stated on the *executable* definitions -/
-theorem eofTransform_eq_scores {n p k} (X : Mat n p 𝕜) (U : Mat n k 𝕜) (s : Fin k → 𝕜) (V : Mat p k 𝕜)
-    (hV : V.toMatrixᴴ * V.toMatrix = 1)
-    (hX : X.toMatrix = U.toMatrix * diagonal s * V.toMatrixᴴ) :
-    (eofTransform X V).toMatrix = (eofScores U s).toMatrix := by
-  simp [eofTransform, eofScores, hX, Matrix.mul_assoc, hV]
+@[simp] theorem toMatrix_sub {n m} (A B : Mat n m 𝕜) : (Mat.sub A B).toMatrix = A.toMatrix - B.toMatrix := by
+  ext i j; simp [Mat.toMatrix, Mat.sub]
+
+@[simp] theorem toMatrix_add {n m} (A B : Mat n m 𝕜) : (Mat.add A B).toMatrix = A.toMatrix + B.toMatrix := by
+  ext i j; simp [Mat.toMatrix, Mat.add]
+
+@[simp] theorem toMatrix_firstCols {α} {n m} (A : Mat n m α) (k : Nat) (h : k ≤ m) :
+    (Mat.firstCols A k h).toMatrix = A.toMatrix.submatrix id (Fin.castLE h) := by
+  ext i j; simp [Mat.toMatrix, Mat.firstCols, Fin.castLE]
+
+/-- selecting columns with an injective map keeps orthonormal columns orthonormal -/
+theorem submatrix_cols_orthonormal {p r k : ℕ} (V : Matrix (Fin p) (Fin r) 𝕜) (e : Fin k → Fin r)
+    (he : Function.Injective e) (hV : Vᴴ * V = 1) :
+    (V.submatrix id e)ᴴ * (V.submatrix id e) = 1 := by
+  have : (V.submatrix id e)ᴴ * (V.submatrix id e) = (Vᴴ * V).submatrix e e := by
+    ext i j; simp [Matrix.mul_apply, conjTranspose_apply]
+  rw [this, hV, Matrix.submatrix_one _ he]
